@@ -22,12 +22,13 @@ import operator
 import os
 
 import c10lists
+import c10tables
 import common
 from common import Ctx, Outcome
 from props import c11 as base
 
-DRIVERS = ["Query", "QueryList"]
-TABLES = False
+DRIVERS = ["Query", "QueryList", "QueryTable"]
+TABLES = True
 LEVEL = "proof"
 RULE = ("cases are (model, state, query) triples enumerated from the live model: every registered class / full type "
         "string / short name occurring in the model (+ unknown ones), `below` anchors sampled from elements with "
@@ -286,6 +287,8 @@ def accessor_kind(cls, attr: str, depth: int = 0) -> tuple[str, bool]:
     name = type(acc).__name__
     if isinstance(acc, (D.LinkAccessor, D.AttrProxyAccessor)):
         return name, True
+    if name == "AssociatedCriteriaAccessor":
+        return name, True  # links in an attribute of a child element (filtering extension): inside the XPath's reach
     if depth < 3:
         if isinstance(acc, D.IndexAccessor):
             return accessor_kind(cls, acc.wrapped, depth + 1)
@@ -823,7 +826,7 @@ def check_filters(ctx: Ctx, out: Outcome, model, label: str, state: str, fcases:
 
 
 EDIT_KINDS = ("create", "child-delete", "child-assign", "attr-append", "attr-remove", "attr-del", "attr-assign",
-              "link-remove", "link-del", "link-assign", "roletag-replace", "roletag-del")
+              "link-remove", "link-del", "link-assign", "roletag-replace", "roletag-del", "backref-second-referrer")
 
 
 def edit_candidates(model, objs: list) -> dict:
@@ -842,6 +845,17 @@ def edit_candidates(model, objs: list) -> dict:
                 continue
             t_ = type(acc)
             try:
+                if t_ is D.ReferenceSearchingAccessor:
+                    # a single-valued back-reference that has one referrer now: a second referrer can be made by
+                    # appending the object to the same list relation of another object of the referrer's class
+                    if acc.aslist is None:
+                        names = [g.__reduce__()[1][0] for g in acc.attrs]
+                        cur = getattr(o, n)
+                        if cur is not None and any(
+                                "." not in a and type(getattr(type(cur), a, None)) in (D.AttrProxyAccessor, D.LinkAccessor)
+                                and getattr(type(cur), a).aslist is not None for a in names):
+                            cands["backref-second-referrer"].append((o, n))
+                    continue
                 if t_ is D.DirectProxyAccessor:
                     if acc.aslist is None or getattr(acc, "follow_abstract", False):
                         continue
@@ -935,6 +949,19 @@ def apply_edit(kind: str, o, n: str, rng, objs: list, serial: int) -> bool:
         setattr(o, n, NewObject(rng.choice(others).__name__))
     elif kind == "roletag-del":
         delattr(o, n)
+    elif kind == "backref-second-referrer":
+        from capellambse.model import _descriptors as D
+
+        cur = getattr(o, n)
+        if cur is None:
+            return False
+        names = [g.__reduce__()[1][0] for g in acc.attrs]
+        rel = next((a for a in names if "." not in a and type(getattr(type(cur), a, None)) in (D.AttrProxyAccessor, D.LinkAccessor)
+                    and getattr(type(cur), a).aslist is not None and o in getattr(cur, a)), None)
+        others = [p for p in objs if type(p) is type(cur) and p is not cur and p._element is not cur._element]
+        if rel is None or not others:
+            return False
+        getattr(rng.choice(others), rel).append(o)
     else:
         return False
     return True
@@ -1099,7 +1126,7 @@ def findrefs_requests(ctx: Ctx, model, keep: list) -> tuple[list[dict], list, li
             cls = None
         par = e.getparent()
         nodes.append({"id": e.get("id") or "", "tag": e.tag if isinstance(e.tag, str) else "", "xt": helpers.xtype_of(e) or "",
-                      "attrs": [[k.split("}")[-1], v] for k, v in e.attrib.items()],
+                      "attrs": [[c10tables.qname(k), v] for k, v in e.attrib.items()],
                       "p": pos.get(id(par)) if par is not None else None,
                       "rels": rels_of(cls) if cls is not None and issubclass(cls, _obj.ModelElement) else []})
     ids = [e.get("id") for e in elems if e.get("id")]
@@ -1167,8 +1194,11 @@ class ModelCtx:
         return self._ctx.scratch
 
 
+TABLE_INFO: dict = {}
+
+
 def run_model_state(ctx: Ctx, out: Outcome, model, label: str, state: str, fcases: list, reqs: list,
-                    lreqs: list | None = None) -> None:
+                    lreqs: list | None = None, treqs: list | None = None) -> None:
     keep: list = []  # keeps lxml proxies alive so that id() stays meaningful
     rep = {"model": label, "state": state}
     guarded(out, "search", dict(rep, kind="guard"), check_search, ctx, out, model, label, state, keep)
@@ -1177,6 +1207,11 @@ def run_model_state(ctx: Ctx, out: Outcome, model, label: str, state: str, fcase
     guarded(out, "filters", dict(rep, kind="guard"), check_filters, ctx, out, model, label, state, fcases)
     if lreqs is not None:
         guarded(out, "listops", dict(rep, kind="guard"), c10lists.check_lists, ctx, out, model, label, state, lreqs)
+    if treqs is not None and TABLE_INFO and os.environ.get("VERIF_NO_MODEL") != "1":
+        rq, impl, ys = c10tables.findrefs_request(ctx, model, TABLE_INFO, keep)
+        treqs.append(("findrefsT", label, state, rq, (impl, ys)))
+        rq, impl = c10tables.backref_request(ctx, model, TABLE_INFO, keep)
+        treqs.append(("backrefT", label, state, rq, impl))
     if os.environ.get("VERIF_NO_MODEL") != "1":
         rq, impl = search_requests(ctx, model, keep)
         reqs.append(("search", label, state, rq[0], impl))
@@ -1190,6 +1225,18 @@ def run(ctx: Ctx) -> Outcome:
     fcases: list = []
     reqs: list = []
     lreqs: list = []
+    treqs: list = []
+    TABLE_INFO.clear()
+    if os.environ.get("VERIF_NO_MODEL") != "1":
+        # the generated tables as the driver reads them vs. the live classes (round trip of the translator)
+        env = base.setup(ctx)
+        env["capellambse"].load_model_extensions()
+        dump = common.model([{"op": "tables"}], driver="QueryTable")[0]
+        if "ok" not in dump:
+            out.disagree("tables", {}, "n/a", dump)
+        else:
+            TABLE_INFO.update(c10tables.check_tables(out, dump["ok"]))
+            out.traces_validated += 1
     sel = base.MODELS
     only = os.environ.get("C10_MODELS")
     if only:
@@ -1200,11 +1247,11 @@ def run(ctx: Ctx) -> Outcome:
             continue
         model = base.open_model(ctx, label, copy="c10")
         mctx = ModelCtx(ctx, label)
-        run_model_state(mctx, out, model, label, "loaded", fcases, reqs, lreqs)
+        run_model_state(mctx, out, model, label, "loaded", fcases, reqs, lreqs, treqs)
         n = random_edits(mctx, out, model)
         per_model[label] = {"edits": n}
         if n:
-            run_model_state(mctx, out, model, label, "edited", fcases, reqs, lreqs)
+            run_model_state(mctx, out, model, label, "edited", fcases, reqs, lreqs, treqs)
         del model
     # fragmented variants (Capella-style, written by the independent fragmenter): type search with `below`
     # across fragment boundaries, references between fragments
@@ -1219,7 +1266,7 @@ def run(ctx: Ctx) -> Outcome:
             continue
         per_model[label + "#frag"] = {"cuts": cuts}
         out.hit("state:fragmented")
-        run_model_state(mctx, out, fm, label, "fragmented", fcases, reqs, lreqs)
+        run_model_state(mctx, out, fm, label, "fragmented", fcases, reqs, lreqs, treqs)
         del fm
     # correspondence
     if os.environ.get("VERIF_NO_MODEL") != "1":
@@ -1280,6 +1327,10 @@ def run(ctx: Ctx) -> Outcome:
             out.traces_validated += 1
         out.extra["list_ops_to_model"] = nops
         out.extra["lists_exported"] = len(lreqs)
+        # find_references / back-references over the generated tables
+        tans = common.model([r[3] for r in treqs], driver="QueryTable")
+        for (kind, label, state, rq, impl), a in zip(treqs, tans):
+            c10tables.compare(out, kind, label, state, rq, impl, a)
     for f in out.findings:  # an edited state is reproduced from (seed, tier, model)
         f.replay.setdefault("seed", ctx.seed)
         f.replay.setdefault("tier", ctx.tier)
